@@ -220,7 +220,7 @@ func checkC20(r *Run) {
 	}
 
 	// ------------------------------------------------------------------ R4
-	r.Rule("C20-R4", "malformed transactions are refused, not fatal: DefaultTxDecoder rejects empty input, decodes with the non-panicking UnmarshalBinaryLengthPrefixed and turns a decode error into an ErrTxDecode result; CheckTx/DeliverTx reach only that decoder with the request bytes", 4)
+	r.Rule("C20-R4", "malformed transactions are refused, not fatal: DefaultTxDecoder rejects empty input, decodes with the non-panicking UnmarshalBinaryLengthPrefixed and turns a decode error into an ErrTxDecode result; CheckTx/DeliverTx reach only that decoder with the request bytes", 3)
 	if f := r.fn("x/auth/types.DefaultTxDecoder$1"); f != nil {
 		if c := r.oneCall("C20-R4", "DefaultTxDecoder", f, "(*github.com/tendermint/go-amino.Codec).UnmarshalBinaryLengthPrefixed"); c != nil {
 			t := P.callTerm(c).String()
